@@ -166,6 +166,40 @@ def g_birthplace(R, tier):
                 R.check(f"{nm}/registered-as-child-of-the-enclosing-namespace/{sig}", v["stack"][-1].fields["inner_nsp"] == [obj], repr(v["stack"][-1].fields["inner_nsp"]))
 
 
+def g_method_super(R, tier):
+    """a method that uses zero-argument super() has the implicit free name __class__; its
+    other free names must still be resolved (in either order of the free-name list)"""
+    ns = NS()
+    for order in (("__class__", "x"), ("x", "__class__")):
+        def run(c):
+            m = Machine(stubs=stubs())
+            sB, fB = mk_symbol("B.x")
+            c.assume(fB["local"])
+            B = mk_scope("B", "function", {"x": sB})
+            sC, fC = mk_symbol("C.x")
+            C = mk_scope("C", "class", {"x": sC})
+            C.fields["symt"].props["methods"]["get_methods"] = lambda o: ("m",)
+            sT, fT = mk_symbol("T.x")
+            c.assume(fT["free"])
+            symt = mk_symt("T", name="m", symbols={"x": sT}, frees=list(order), kind="function")
+            obj = m.call_value(ns.NamespaceFunction, symt, [mk_scope("G", "global"), B, C])
+            return dict(obj=obj, B=B)
+        paths = explore(run)
+        nm = f"namespaces.NamespaceFunction.__init__[method-with-super,frees={'+'.join(order)}]"
+        if not paths_or_undecided(R, nm + "/paths", paths):
+            continue
+        for p in paths:
+            sig = p.ctx.signature()
+            rp = dict(kind="src", src="class P:\n    def m(self):\n        return 1\ndef outer():\n    x = 5\n    y = 6\n    class A(P):\n        def m(self):\n            return super().m() + x + y\n    return A().m()\nr = outer()\n", expect="same-globals")
+            if p.kind != "ok":
+                R.fail(f"{nm}/no-unexpected-raise/{sig}", repr(p.value), replay=rp)
+                continue
+            obj = p.value["obj"]
+            R.check(f"{nm}/zero-argument-super-detected/{sig}", obj.is_method is True and obj.zero_arg_super_used is True, f"is_method={obj.is_method} super={obj.zero_arg_super_used}")
+            R.check(f"{nm}/other-free-names-still-resolved/{sig}", obj.outer_nonlocal_map.get("x") is p.value["B"] and "__class__" not in obj.outer_nonlocal_map,
+                    f"outer_nonlocal_map={obj.outer_nonlocal_map!r}", replay=rp)
+
+
 # ----------------------------------------------------------------------------------------
 # location table (Language Reference 4.2.2 + reading of the access forms)
 
@@ -812,7 +846,7 @@ def g_for_target(R, tier):
                    "def f():\n    for i in range(3):\n        pass\n    def g():\n        return i\n    return i, g()\nr = f()\nfor k in range(2):\n    pass\nlast = k\n")
 
 
-GROUPS = {"for_target": g_for_target, "birthplace": g_birthplace, "access_function": g_access_function, "access_class": g_access_class, "access_global": g_access_global,
+GROUPS = {"for_target": g_for_target, "birthplace": g_birthplace, "method_super": g_method_super, "access_function": g_access_function, "access_class": g_access_class, "access_global": g_access_global,
           "transform_dispatch": g_transform_dispatch, "transform_generic": g_transform_generic, "transform_names": g_transform_names,
           "transform_comp": g_transform_comp, "walk": g_walk, "seeding": g_seeding, "canary": c13.g_canary}
 
